@@ -4,6 +4,7 @@ import re
 
 import core
 import rxcommon as rx
+import translate
 
 core.setup_repo_path()
 
@@ -22,7 +23,9 @@ def classify(s, dialect):
 class C03(core.Prop):
     pid = 'C03'
     lean_modules = ['TddaVerif.Props.C03']
-    theorems = []
+    theorems = ['TddaVerif.Props.C03.' + t for t in [
+        'matchCap_sound', 'matchCap_complete', 'coarse_sound', 'batch_extract_sound', 'extract_sound',
+        'tie_constants', 'tie_general_alnums']]
     quick_n = 500
     thorough_n = 40000
     rule = ('cases: example multisets of 1..14 strings from structured families (ids, phones, urls, e-mails, names, hex, '
@@ -32,14 +35,26 @@ class C03(core.Prop):
             'extra_letters, dialect perl/portable/grep} x Size settings small enough to force sampling x seeds. '
             'non-trivial = >= 2 distinct examples; distinct by content')
     trusted_base = [
+        'the Lean model Model/Rexpy.lean + RexpyRender.lean is a hand translation of the batch path of rexpy.Extractor '
+        '(clean, coarse classification, run-length encoding, merging, alignment, refinement, pruning, rendering), tied '
+        'by running both on every generated case that does not sample; the sampling loop is not modelled - the oracle decides it',
+        'Consistent T: the character table handed to the model classifies \\w / \\d / \\s as CPython re does (built by calling re on each character)',
+        'the theorems are about the pattern AST and the Matches relation of Props/C03Spec.lean; that the rendered text '
+        'denotes the same language under CPython re is checked by the oracle on every case, not proved',
+        'harness/translate.py regenerates Generated/Rexpy.lean (constants, category tables, class order) from the imported module',
         'the CPython re engine decides matching (oracle: re.fullmatch under UNICODE|DOTALL); Unicode beyond the generated alphabet is not covered',
     ]
+
+    def translate(self):
+        return translate.regenerate(['Rexpy'])
 
     def corpus(self):
         return [
             {'examples': ['^-', 'a'], 'opts': {}, 'size': None, 'seed': None, 'form': 'list'},
             {'examples': ['a²', 'b³'], 'opts': {'dialect': 'perl'}, 'size': None, 'seed': None, 'form': 'list'},
             {'examples': ['٣', '٤'], 'opts': {'dialect': 'portable'}, 'size': None, 'seed': None, 'form': 'list'},
+            {'examples': ['ab', 'cd', 'ef', 'gh\n', 'ij', 'kl'], 'opts': {},
+             'size': {'do_all': 2, 'do_all_exceptions': 1, 'max_sampled_attempts': 1, 'n_per_length': 1}, 'seed': 1, 'form': 'list'},
             {'examples': ['ab', 'cd', '12', '1-2', 'x_y', 'QQ', 'zz9'], 'opts': {},
              'size': {'do_all': 2, 'do_all_exceptions': 1, 'max_sampled_attempts': 1}, 'seed': 3, 'form': 'list'},
         ]
